@@ -13,7 +13,10 @@ PLAN = dict(
          "argument tuples; stdout bytes and exit status compared with the source semantics (Sem/FunSem.v: rendered prints, result mod 256) "
          "whenever the source run is defined. Non-trivial: at least one run compared (tag nt); tags: runs, shadowing, sequenced",
     explanation="theorems: composition of the stage theorems with the unproved links as explicit hypotheses (linearization and runtime links discharged), "
-                "print trace = bytes the C runtime writes; the whole path is exercised natively on every run",
+                "print trace = bytes the C runtime writes; C01_compile_correct_all_links_partial: EVERY link discharged by a proved stage theorem (no stage hypothesis; "
+                "guards: the boolean guards of the middle theorems, entry_ext / plain_names / plain_types / asm_wf / code_small on the x86-64 side, and heap_fits - the run "
+                "stays inside the 32 MiB heap), all guards executable (C01_compile_correct_checked) and true of five example programs; "
+                "the whole path is exercised natively on every run",
     assumptions=["Sem/FunSem.v is the source semantics the property names (validated against the repository's expected outputs)",
                  "mismatches in programs whose effects are not sequenced (argument evaluation order unspecified by the property) are skipped, not judged",
                  "gcc / GNU as / ld of this host; NASM->GAS transliteration is syntax only"],
